@@ -15,7 +15,6 @@ pub fn rules() -> Vec<Rewrite> { vec![
     rw!("add-same";  "(+ ?a ?a)" => "(* ?a 2)"),
     rw!("add-neg";   "(+ ?a (- ?b))" => "(- ?a ?b)"),
 
-    rw!("mul-zero";  "(* ?a 0)" => "0"),
     rw!("mul-one";   "(* ?a 1)" => "?a"),
     rw!("mul-minus"; "(* ?a -1)" => "(- ?a)"),
     rw!("mul-comm";  "(* ?a ?b)"        => "(* ?b ?a)"),
@@ -29,21 +28,12 @@ pub fn rules() -> Vec<Rewrite> { vec![
 
     rw!("sub-zero";   "(- ?a 0)" => "?a"),
     rw!("zero-sub";   "(- 0 ?a)" => "(- ?a)"),
-    rw!("sub-cancel"; "(- ?a ?a)" => "0"),
 
-    rw!("div-cancel"; "(/ ?a ?a)" => "1" if is_not_zero("?a")),
 
     rw!("mul-add-distri";   "(* ?a (+ ?b ?c))" => "(+ (* ?a ?b) (* ?a ?c))"),
     rw!("mul-add-factor";   "(+ (* ?a ?b) (* ?a ?c))" => "(* ?a (+ ?b ?c))"),
 
-    rw!("recip-mul-div"; "(* ?x (/ 1 ?x))" => "1" if is_not_zero("?x")),
 
-    rw!("eq-eq";     "(=  ?a ?a)" => "true"),
-    rw!("ne-eq";     "(<> ?a ?a)" => "false"),
-    rw!("gt-eq";     "(>  ?a ?a)" => "false"),
-    rw!("lt-eq";     "(<  ?a ?a)" => "false"),
-    rw!("ge-eq";     "(>= ?a ?a)" => "true"),
-    rw!("le-eq";     "(<= ?a ?a)" => "true"),
     rw!("eq-comm";   "(=  ?a ?b)" => "(=  ?b ?a)"),
     rw!("ne-comm";   "(<> ?a ?b)" => "(<> ?b ?a)"),
     rw!("gt-comm";   "(>  ?a ?b)" => "(<  ?b ?a)"),
@@ -94,7 +84,6 @@ pub fn rules() -> Vec<Rewrite> { vec![
 
     rw!("if-false";  "(if false ?then ?else)" => "?else"),
     rw!("if-true";   "(if true ?then ?else)" => "?then"),
-    rw!("if-not";    "(if (not ?cond) ?then ?else)" => "(if ?cond ?else ?then)"),
 
     rw!("avg";       "(avg ?a)" => "(/ (sum ?a) (count ?a))"),
 
